@@ -21,7 +21,10 @@ level("C09", "other",
       "merge never modifies its operands (C02/C03 contracts). Bounded stand-in: run([p1,p2]) = run(p1);run(p2) = run(p1+p2), "
       "reset = fresh engine, re-running gives the same result, run/compile/optimize leave Program.circuit, parameters, "
       "registers and operation objects untouched, on gaussian/fock/bosonic with measured parameters across segments. "
-      "F10, F12 found and repaired; F9 (bosonic re-initialisation) is an open finding.",
+      "Shape-bounded contracts: BaseEngine._run / reset against abstract program segments (hand-over of measured values mode by "
+      "mode), Program(parent) shares nothing mutable with its parent whatever is later done to the successor, every natively "
+      "applied operation class leaves the operation untouched. F10, F12, F61 found and repaired; F9 (bosonic re-initialisation) "
+      "is an open finding.",
       trusted=["backend API calls are recording stubs in the proofs"])
 level("C10", "other",
       "Proved: measured parameters are evaluated when the gate is applied (latest RegRef.val, no caching), an unmeasured "
@@ -29,8 +32,10 @@ level("C10", "other",
       "free/measured atoms, par_regref_deps returns exactly the RegRefs of the measured atoms; decompositions are parametric "
       "(C02 contracts run the real _decompose on opaque values: any value-dependent branch would make them undecided). "
       "Bounded stand-in: symbolic vs substituted programs give the same state through compile/decompose/optimize on three "
-      "backends; hand-over of measured values across program segments. F12 repaired; F11 (sympy symbol identity across "
-      "programs) is an open finding.",
+      "backends; hand-over of measured values across program segments; array-valued parameters with and without the optimiser. "
+      "Shape-bounded: par_regref_deps / Operation.measurement_deps / Command.get_dependencies over the grammar of parameters "
+      "(scalar expressions and object arrays of any shape). F12, F61 repaired; F11 (sympy symbol identity across programs) is "
+      "an open finding.",
       trusted=["library: sympy.lambdify(atoms, expr)(*vals) is the value of expr under the substitution (real sympy is executed)"])
 
 native(["C09", "C10"], "c09_engine", "native/c09_engine.py",
